@@ -864,7 +864,7 @@ package logqlengine
 //@   ensures[decoder-error-reported] er_called && same(ret0, er_r0)
 //@   loop 0 modifies set.labels[*]
 //@   loop 1 modifies set.labels[*]
-//@   loop 1 body_ensures[pair-becomes-label] key_called && val_called && has(set.labels, logql.Label(key_r0)) && same(set.labels[logql.Label(key_r0)], pcommon.NewValueStr(string(val_r0)))
+//@   loop 1 body_ensures[pair-becomes-label-under-its-sanitised-name] key_called && val_called && has(set.labels, logql.Label(otelstorage.KeyToLabel(string(key_r0)))) && same(set.labels[logql.Label(otelstorage.KeyToLabel(string(key_r0)))], pcommon.NewValueStr(string(val_r0)))
 
 //@ scope regexp.go
 
